@@ -809,3 +809,94 @@ Proof.
   exists (mkConfig 0 [hx "01"%string; hx "02"%string] 9223372036854775808 1 false false).
   vm_compute. repeat split; congruence.
 Qed.
+
+(* ---------- every DKG instance has an eon number at most the counter (while it does not wrap) ---------- *)
+Definition eon_inv (s : state) : Prop :=
+  forall eon d, dkg_get (dkgs s) eon = Some d -> (eon <= eon_counter s)%N.
+
+Definition max_eon : N := 18446744073709551615%N.
+
+Lemma eon_inv_frame s s' : dkgs s' = dkgs s -> eon_counter s' = eon_counter s -> eon_inv s -> eon_inv s'.
+Proof. intros Hd Hc H eon d. rewrite Hd, Hc. apply H. Qed.
+
+Lemma eon_inv_upd s eon d d' : eon_inv s -> dkg_get (dkgs s) eon = Some d -> eon_inv (upd_dkg s eon d').
+Proof.
+  intros H Hg eon' dd. unfold upd_dkg. simpl. rewrite dkg_get_set.
+  destruct (N.eqb eon eon') eqn:E; [|apply H]. apply N.eqb_eq in E. subst eon'. intros _. eapply H. exact Hg.
+Qed.
+
+Lemma eon_inv_start s c : eon_inv s -> (eon_counter s < max_eon)%N -> eon_inv (fst (start_dkg s c)).
+Proof.
+  intros H Hlt eon d. unfold start_dkg. simpl. rewrite dkg_get_set.
+  assert (Hn : ((eon_counter s + 1) mod 18446744073709551616 = eon_counter s + 1)%N).
+  { apply N.mod_small. unfold max_eon in Hlt. lia. }
+  rewrite Hn. destruct (N.eqb (eon_counter s + 1) eon) eqn:E.
+  - apply N.eqb_eq in E. subst eon. intros _. lia.
+  - intros Hg. specialize (H eon d Hg). lia.
+Qed.
+
+Lemma step_counter_le e s c :
+  (eon_counter s < max_eon)%N -> (eon_counter (fst (step e s c)) <= eon_counter s + 1)%N /\ (eon_counter s <= eon_counter (fst (step e s c)))%N.
+Proof.
+  intros Hlt. pose proof (step_eons e s c) as H. unfold eon_step, next_eon in H.
+  assert (Hn : ((eon_counter s + 1) mod 18446744073709551616 = eon_counter s + 1)%N).
+  { apply N.mod_small. unfold max_eon in Hlt. lia. }
+  destruct H as [[_ ->]|[_ ->]]; [lia|]. rewrite Hn. lia.
+Qed.
+
+Lemma deliver_message_eon_inv e s sender p s' r :
+  eon_inv s -> (eon_counter s < max_eon)%N -> deliver_message e s sender p = Some (s', r) -> eon_inv s'.
+Proof.
+  intros Hi Hlt. destruct p; simpl.
+  - unfold deliver_batch_config. branches; intros [= <- <-]; try exact Hi.
+    match goal with H : start_dkg ?s0 ?c0 = _ |- _ =>
+      pose proof (eon_inv_start s0 c0) as HS; rewrite H in HS; simpl in HS end.
+    apply HS; [exact Hi|exact Hlt].
+  - unfold deliver_block_seen. branches; intros [= <- <-]; exact Hi.
+  - unfold deliver_check_in. branches; intros [= <- <-]; exact Hi.
+  - unfold deliver_dkg_result. destruct (dkg_get (dkgs s) eon) as [d|] eqn:Eg; [|intros [= <- <-]; exact Hi].
+    branches; intros [= <- <-]; try exact Hi.
+    all: try (apply (eon_inv_upd s eon d); [exact Hi|exact Eg]).
+    match goal with H : start_dkg ?s0 ?c0 = _ |- _ =>
+      pose proof (eon_inv_start s0 c0) as HS; rewrite H in HS; simpl in HS end.
+    apply HS; [|exact Hlt]. apply (eon_inv_upd s eon d); [exact Hi|exact Eg].
+  - unfold handle_poly_eval. destruct (dkg_get (dkgs s) eon) as [d|] eqn:Eg; branches; intros [= <- <-]; try exact Hi.
+    all: try (apply (eon_inv_upd s eon d); [exact Hi|exact Eg]).
+  - unfold handle_poly_commitment. destruct (dkg_get (dkgs s) eon) as [d|] eqn:Eg; branches; intros [= <- <-]; try exact Hi.
+    all: try (apply (eon_inv_upd s eon d); [exact Hi|exact Eg]).
+  - unfold handle_accusation. destruct (dkg_get (dkgs s) eon) as [d|] eqn:Eg; branches; intros [= <- <-]; try exact Hi.
+    all: try (apply (eon_inv_upd s eon d); [exact Hi|exact Eg]).
+  - unfold handle_apology. destruct (dkg_get (dkgs s) eon) as [d|] eqn:Eg; branches; intros [= <- <-]; try exact Hi.
+    all: try (apply (eon_inv_upd s eon d); [exact Hi|exact Eg]).
+  - intros [= <- <-]. exact Hi.
+Qed.
+
+Lemma step_eon_inv e s c : eon_inv s -> (eon_counter s < max_eon)%N -> eon_inv (fst (step e s c)).
+Proof.
+  intros Hi Hlt. destruct c; simpl.
+  - destruct (begin_block s height); exact Hi.
+  - destruct (check_tx s t) as [s' code] eqn:E. simpl. unfold check_tx in E. revert E. branches; intros [= <- <-]; exact Hi.
+  - destruct (deliver_tx e s t) as [[s' [code evs]]|] eqn:E; simpl; [|exact Hi].
+    unfold deliver_tx in E. revert E. destruct t as [|signer chain nonce p]; [intros [= <- <- <-]; exact Hi|].
+    branches; try (intros [= <- <- <-]; exact Hi).
+    intros E. eapply deliver_message_eon_inv; [| |exact E]; [exact Hi|exact Hlt].
+  - unfold end_block. destruct (end_block_configs s None (configs s)) as [cs evs]. simpl. exact Hi.
+  - exact Hi.
+Qed.
+
+Lemma run_eon_inv cs : forall es k s,
+  eon_inv s -> (Z.of_N (eon_counter s) + Z.of_nat (length cs) < Z.of_N max_eon)%Z ->
+  eon_inv (fst (run_enums es k s cs)).
+Proof.
+  induction cs as [|c r IH]; intros es k s Hi Hb; [exact Hi|].
+  change (length (c :: r)) with (S (length r)) in Hb. rewrite Nat2Z.inj_succ in Hb.
+  assert (Hlt : (eon_counter s < max_eon)%N) by lia.
+  pose proof (step_eon_inv (es k) s c Hi Hlt) as H1.
+  pose proof (step_counter_le (es k) s c Hlt) as [Hc _].
+  cbn [run_enums]. destruct (step (es k) s c) as [s1 o]. cbn [fst snd] in *.
+  assert (Hb1 : (Z.of_N (eon_counter s1) + Z.of_nat (length r) < Z.of_N max_eon)%Z) by lia.
+  specialize (IH es (S k) s1 H1 Hb1). destruct (run_enums es (S k) s1 r) as [s2 os]. exact IH.
+Qed.
+
+Lemma init_chain_eon_inv g s : init_chain g = Some s -> eon_inv s.
+Proof. unfold init_chain. branches; try discriminate. intros [= <-] eon d. simpl. discriminate. Qed.
